@@ -131,14 +131,31 @@ mod listing {
     /// Runs a script with `snap` available; `pre` = variables created through the API before the first
     /// command (names the `typeset` built-in cannot create, e.g. containing `=`).
     /// Returns (stdout, the snapshots taken by each `snap`).
-    fn run_pre(script: &str, pre: &[(String, String)]) -> Result<(String, Vec<Vec<String>>), String> {
+    fn run_pre(script: &str, pre: &[(String, String)], ignored: &[String]) -> Result<(String, Vec<Vec<String>>), String> {
+        use yash_env::system::Disposition;
+        use yash_env::system::r#virtual::{SIGHUP, SIGINT, SIGQUIT, SIGTERM, SIGUSR1, SIGUSR2};
         SNAP.with(|s| s.borrow_mut().clear());
         let mut out = String::new();
         let pre: Vec<(String, String)> = pre.to_vec();
+        let ignored: Vec<String> = ignored.to_vec();
         let r = guarded(|| {
             let (o, _) = run_with(
                 Config::new(script),
-                move |env, _| {
+                move |env, state| {
+                    // signals ignored on entry to the shell (`ti:` ops): the disposition the process starts with
+                    for c in &ignored {
+                        let n = match c.as_str() {
+                            "HUP" => SIGHUP,
+                            "INT" => SIGINT,
+                            "QUIT" => SIGQUIT,
+                            "TERM" => SIGTERM,
+                            "USR1" => SIGUSR1,
+                            _ => SIGUSR2,
+                        };
+                        if let Some(p) = state.borrow_mut().processes.get_mut(&env.main_pid) {
+                            p.set_disposition(n, Disposition::Ignore);
+                        }
+                    }
                     env.builtins.insert("snap", Builtin::new(Type::Mandatory, snap_main));
                     for (n, v) in &pre {
                         let _ = env.variables.get_or_new(n.as_str(), Scope::Global).assign(v.as_str(), None);
@@ -157,7 +174,7 @@ mod listing {
 
     /// the snapshot taken by the last `snap` of a script
     fn run(script: &str) -> Result<(String, Option<Vec<String>>), String> {
-        run_pre(script, &[]).map(|(o, mut v)| (o, v.pop()))
+        run_pre(script, &[], &[]).map(|(o, mut v)| (o, v.pop()))
     }
 
     thread_local! {
@@ -197,6 +214,8 @@ mod listing {
         defs: String,
         /// variables created through the API (`e:` ops)
         pre: Vec<(String, String)>,
+        /// signals ignored on entry (`ti:` ops)
+        ignored: Vec<String>,
         /// `o:portable:1` : switched on only before the option listings (other listings cannot run with it)
         portable: bool,
         vars: Vec<String>,
@@ -221,7 +240,7 @@ mod listing {
         // aliases are defined after everything else: an alias named like a command used in a function
         // body (`:`) would otherwise be substituted into the definitions that follow it
         let mut aliases = String::new();
-        let mut out = Script { defs: String::new(), pre: vec![], portable: false, vars: vec![], aliases: vec![], fns: vec![] };
+        let mut out = Script { defs: String::new(), pre: vec![], ignored: vec![], portable: false, vars: vec![], aliases: vec![], fns: vec![] };
         for op in case.split_whitespace().skip(1) {
             let f: Vec<&str> = op.split(':').collect();
             match f.as_slice() {
@@ -259,6 +278,12 @@ mod listing {
                     let name = dec_str(n)?;
                     aliases.push_str(&format!("alias -- {}\n", sq(&format!("{}={}", name, dec_str(v)?))));
                     push_unique(&mut out.aliases, name);
+                }
+                ["ti", c] => {
+                    if !CONDS.contains(c) || *c == "EXIT" {
+                        return None;
+                    }
+                    push_unique(&mut out.ignored, c.to_string());
                 }
                 ["t", c, a] => sc.push_str(&format!("trap -- {} {}\n", sq(&dec_str(a)?), c)),
                 // the condition given by NUMBER (0 = EXIT; signal numbers of the virtual system)
@@ -373,6 +398,13 @@ mod listing {
         ("As", "A", "(alias)"),
         ("Vs", "V", "(typeset -p)"),
         ("Tq", "T", "SAVEDQZJX=$(trap); echo \"$SAVEDQZJX\"; unset -v SAVEDQZJX"),
+        // one operand does not exist: `alias` prints the others, the `typeset` family prints NOTHING (the error
+        // discards the output); `export` / `readonly` are special built-ins (the error ends the shell): subshell
+        ("Am", "A", "alias -- @a NOSUCHQZJX"),
+        ("Vm", "-", "typeset -p -- @v NOSUCHQZJX"),
+        ("Xm", "-", "(export -p -- @v NOSUCHQZJX)"),
+        ("Rm", "-", "(readonly -p -- @v NOSUCHQZJX)"),
+        ("Fm", "-", "typeset -fp -- @f NOSUCHQZJX"),
         // `command -v` on the alias names: prints command lines that redefine the aliases (docs/builtins/command.md)
         ("Cv", "Ac", "command -v -- @a"),
         // after `set -o portable` (if the history asks for it) and a second `snap`
@@ -381,7 +413,7 @@ mod listing {
         ("Os", "O", "(set +o)"),
     ];
     /// observation order (texts the model predicts)
-    const OBS: &[&str] = &["A", "V", "X", "R", "S", "T", "U", "O", "Ao", "Vo", "Tc", "Oh", "Us", "Ts", "Tk", "Tq", "As", "Vs", "Os", "Cv"];
+    const OBS: &[&str] = &["A", "V", "X", "R", "S", "T", "U", "O", "Ao", "Vo", "Tc", "Oh", "Us", "Ts", "Tk", "Tq", "As", "Vs", "Os", "Cv", "Am", "Vm", "Xm", "Rm", "Fm"];
 
     fn var_fields(l: &str) -> Option<(String, String, String)> {
         // "V <name> <xr> <value>"
@@ -550,7 +582,7 @@ mod listing {
         if std::env::var("C07_DEBUG").is_ok() {
             eprintln!("--- script\n{script}");
         }
-        let (out, s1, s1o) = match run_pre(&script, &sc.pre) {
+        let (out, s1, s1o) = match run_pre(&script, &sc.pre, &sc.ignored) {
             Ok((o, mut v)) if v.len() == 2 => {
                 let b = v.pop().unwrap();
                 (o, v.pop().unwrap(), b)
@@ -760,6 +792,17 @@ mod listing {
         let mut readonly: Vec<String> = vec![];
         let mut ro_fns: Vec<String> = vec![];
         let mut arrays: Vec<String> = vec![];
+        // one history in six starts in a shell that inherited ignored signals (they cannot be trapped or reset
+        // in a non-interactive shell, and `trap` lists them as `trap -- '' SIG`)
+        if r.chance(1, 6) {
+            for _ in 0..1 + r.below(2) {
+                let c = *r.pick(&CONDS[1..]);
+                let op = format!("ti:{c}");
+                if !ops.contains(&op) {
+                    ops.push(op);
+                }
+            }
+        }
         for _ in 0..n {
             if r.chance(1, 30) {
                 // a variable only the API can create: its name contains `=` (the printers skip it)
